@@ -326,7 +326,7 @@ func (r *Rec) Violation(tb testing.TB, sig, kind string, c any, format string, a
 
 func (r *Rec) emit(f *failure) {
 	doc := map[string]any{"property": r.Prop, "sig": f.Sig, "kind": f.Kind, "message": f.Msg, "case": f.Case,
-		"tier": Tier(), "seed": SeedValue(), "shard": Shard()}
+		"tier": Tier(), "seed": SeedValue(), "shard": Shard(), "local_zone": LocalZoneName()}
 	b, err := json.MarshalIndent(doc, "", " ")
 	if err != nil {
 		b = []byte(fmt.Sprintf(`{"property":%q,"sig":%q,"kind":%q,"message":%q,"case":null,"marshal_error":%q}`, r.Prop, f.Sig, f.Kind, f.Msg, err.Error()))
@@ -443,6 +443,7 @@ func FlushAll() {
 
 // Main is the common TestMain body.
 func Main(m *testing.M) {
+	UseLocalZone(LocalZoneFor(SeedValue(), Shard()))
 	code := m.Run()
 	FlushAll()
 	os.Exit(code)
@@ -457,6 +458,7 @@ type ReplayDoc struct {
 	Kind     string          `json:"kind"`
 	Message  string          `json:"message"`
 	Case     json.RawMessage `json:"case"`
+	LocalZone string `json:"local_zone,omitempty"` // the process' local time zone when the case was found
 	// findings/ witnesses only:
 	Expect string `json:"expect,omitempty"` // "pass" (fixed) or "known" (still failing, listed)
 	Note   string `json:"note,omitempty"`
@@ -515,7 +517,12 @@ func RunReplays(t *testing.T, rec *Rec, exec func(kind string, c json.RawMessage
 		if d.Property != rec.Prop {
 			continue
 		}
+		prev := LocalZoneName()
+		if d.LocalZone != "" {
+			UseLocalZone(d.LocalZone)
+		}
 		o, err := exec(d.Kind, d.Case)
+		UseLocalZone(prev)
 		if err != nil {
 			t.Errorf("replay %s: cannot execute: %v", f, err)
 			continue
